@@ -149,7 +149,7 @@ def cases(tier):
     # ... and where its base is identically zero over an interval (beyond the end of a range, outside table data) a power with ANY positive constant
     # exponent is the zero function there: value, slope and curvature are 0
     for base in ('range-then-zero', 'zero', 'table-beyond-data', 'product-with-zero'):
-        for e in (0.25, 0.5, 0.75, 1, 1.5, 2, 3):
+        for e in (0.25, 0.5, 0.75, 1, 1.5, 2, 3, 'r-dependent', 'r-dependent-steep'):
             for wrap in ('none', 'sum', 'product'):
                 for route in ('api', 'cfg'):
                     out.append(dict(route='pow_flat_zero', base=base, e=e, wrap=wrap, via=route))
@@ -455,7 +455,8 @@ def run_pow_flat_zero(case):
     morse = L['morse']
     base = {'range-then-zero': D(('>', 0.0, form('polynomial', 4.0, -4.0, 1.0)), ('>=', 2.0, form('zero'))), 'zero': D(form('zero')),
             'table-beyond-data': D({'table': 'tf'}), 'product-with-zero': D(mod('product', form('buck', 1000.0, 0.3, 32.0), D(('>', 0.0, form('constant', 1.0)), ('>=', 2.0, form('zero')))))}[case['base']]
-    t = mod('pow', base, form('constant', case['e']))
+    expo = {'r-dependent': form('polynomial', 0.5, 0.1), 'r-dependent-steep': form('polynomial', 0.25, 1.5, 0.5)}.get(case['e']) or form('constant', case['e'])
+    t = mod('pow', base, expo)       # (the exponent stays positive on the probes: 0 ** b(r) is the zero function there)
     d = D(t) if case['wrap'] == 'none' else D(mod(case['wrap'], t, morse))
     env = M.env()
     if case['via'] == 'api':
